@@ -16,6 +16,7 @@ import (
 	"runtime"
 	"sync"
 	"sync/atomic"
+	"syscall"
 	"testing"
 	"time"
 
@@ -308,6 +309,7 @@ type inflightT struct {
 	data  []byte // case JSON
 	start time.Time
 	heap0 uint64
+	cpu0  time.Duration // processor time this process had used when the call began
 }
 
 var (
@@ -315,10 +317,22 @@ var (
 	watchdogOnce sync.Once
 )
 
+// A call that does not terminate burns processor time; a machine that is busy with other things only makes the wall
+// clock run. The limit is therefore on the processor time the process uses while the call is under way (the test
+// goroutine is the only busy one); the wall clock is consulted only for a call that sits blocked for a quarter of an hour.
 const (
-	watchdogTime = 20 * time.Second
-	watchdogHeap = 1 << 30
+	watchdogTime    = 20 * time.Second // processor time
+	watchdogBlocked = 15 * time.Minute // wall clock
+	watchdogHeap    = 1 << 30
 )
+
+func processCPU() time.Duration {
+	var ru syscall.Rusage
+	if syscall.Getrusage(syscall.RUSAGE_SELF, &ru) != nil {
+		return 0
+	}
+	return time.Duration(ru.Utime.Nano() + ru.Stime.Nano())
+}
 
 func startWatchdog() {
 	watchdogOnce.Do(func() {
@@ -332,13 +346,14 @@ func startWatchdog() {
 				var ms runtime.MemStats
 				runtime.ReadMemStats(&ms)
 				el := time.Since(in.start)
+				used := processCPU() - in.cpu0
 				grown := ms.HeapAlloc > in.heap0 && ms.HeapAlloc-in.heap0 > watchdogHeap
-				if el > watchdogTime || grown {
+				if used > watchdogTime || el > watchdogBlocked || grown {
 					if inflight.Load() != in {
 						continue
 					}
-					msg := fmt.Sprintf("a single decode call is still running after %.1fs with the heap grown by %d MiB (limits: %s, %d MiB): the call does not terminate or its memory is not bounded by the datagram",
-						el.Seconds(), (ms.HeapAlloc-in.heap0)>>20, watchdogTime, watchdogHeap>>20)
+					msg := fmt.Sprintf("a single decode call is still running after %.1fs of processor time (%.1fs of wall clock) with the heap grown by %d MiB (limits: %s of processor time, %d MiB): the call does not terminate or its memory is not bounded by the datagram",
+						used.Seconds(), el.Seconds(), (ms.HeapAlloc-in.heap0)>>20, watchdogTime, watchdogHeap>>20)
 					p := ""
 					if *flagReplay != "" {
 						dir := filepath.Join(*flagReplay, in.prop)
@@ -526,7 +541,7 @@ func runRobust(prop string, c *rbCase, bounds bool) (v verdict, sig string, err 
 			}
 			continue
 		}
-		inflight.Store(&inflightT{prop: prop, data: cj, start: time.Now(), heap0: ms.HeapAlloc})
+		inflight.Store(&inflightT{prop: prop, data: cj, start: time.Now(), heap0: ms.HeapAlloc, cpu0: processCPU()})
 		sig, err = processOne(c.Proto, cache, c.Exporters[it.Exp], it.Data, bounds, &st)
 		inflight.Store(nil)
 		if err != nil {
